@@ -408,9 +408,9 @@ LoadMeshErr HSolver::LoadMesh(bool deleteFiles)
 
 				meshele[mbr[n0][q]]=elm;
 
-				//this is a little hack: line charge distributions should be applied
-				//to at most one element;
-				if((lineproplist[j].BdryFormat==2) && (n)) q=nmbr[n0];
+				//heat flux, convection and radiation on an interior line are contributions of the LINE:
+				//they should be applied to at most one of the two elements that share it;
+				if((lineproplist[j].BdryFormat>=1) && (lineproplist[j].BdryFormat<=3) && (n)) q=nmbr[n0];
 			}
 		}
 
